@@ -271,10 +271,13 @@ class H2Protocol:
         for event in events:
             if isinstance(event, h2.events.RequestReceived):
                 if self.context.terminated.is_set():
-                    self.connection.reset_stream(event.stream_id)
-                    self.connection.update_settings(
-                        {h2.settings.SettingCodes.MAX_CONCURRENT_STREAMS: 0}
-                    )
+                    try:
+                        self.connection.reset_stream(event.stream_id)
+                        self.connection.update_settings(
+                            {h2.settings.SettingCodes.MAX_CONCURRENT_STREAMS: 0}
+                        )
+                    except h2.exceptions.ProtocolError:
+                        pass  # The client has closed the connection (GOAWAY)
                 else:
                     await self._create_stream(event)
                     await self.send(Updated(idle=self.idle))
@@ -354,20 +357,28 @@ class H2Protocol:
                 self.priority.block(event.stream_id)
         await self.has_data.set()
 
+    def _reset_stream(self, stream_id: int, error_code: h2.errors.ErrorCodes) -> None:
+        try:
+            self.connection.reset_stream(stream_id, error_code)
+        except h2.exceptions.ProtocolError:
+            pass  # The client has closed the connection (GOAWAY)
+
     async def _create_stream(
         self, request: Union[h2.events.RequestReceived, _SyntheticRequest]
     ) -> None:
+        raw_method = b""
         raw_path = b""  # A CONNECT request need not have a path
         for name, value in request.headers:
             if name == b":method":
-                method = value.decode("ascii").upper()
+                raw_method = value
             elif name == b":path":
                 raw_path = value
 
-        if not raw_path.isascii():
+        if not raw_path.isascii() or not raw_method.isascii():
             # Malformed request (RFC 9113 8.1.1), affects only this stream
-            self.connection.reset_stream(request.stream_id, h2.errors.ErrorCodes.PROTOCOL_ERROR)
+            self._reset_stream(request.stream_id, h2.errors.ErrorCodes.PROTOCOL_ERROR)
             return
+        method = raw_method.decode("ascii").upper()
 
         if method == "CONNECT":
             self.streams[request.stream_id] = WSStream(
@@ -404,7 +415,7 @@ class H2Protocol:
             # sent PRIORITY frames), refuse this stream only.
             del self.streams[request.stream_id]
             del self.stream_buffers[request.stream_id]
-            self.connection.reset_stream(request.stream_id, h2.errors.ErrorCodes.REFUSED_STREAM)
+            self._reset_stream(request.stream_id, h2.errors.ErrorCodes.REFUSED_STREAM)
             return
         else:
             self.priority.block(request.stream_id)
